@@ -53,6 +53,14 @@ chk("C02", "fault_enumeration",
     "Lenient readings (non-numeric Content-Length as 0, soft 16 KiB header cap) are not alarms; reach is the generated classes plus random mutations, not all byte strings.",
     "fault injection (mutated requests, resets, read schedules) with sanitizers + probe/exactly-once/close monitors over an event log", "DESIGN.md section 4 / C02", "vsrv")
 
+chk("C03", "fault_enumeration",
+    "Sync and async writer applications execute generated scripts (writes of 0..131070 bytes through write/<</put, flushes, setbuf, io_mode normal/nogzip, full/partial asynchronous buffering, asynchronous flushes, headers, "
+    "cookies, page-cache store/fetch with triggers) over HTTP/1.0, 1.1 close, 1.1 keep-alive (chunked), SCGI and FastCGI with and without gzip, while a link-time writev() shim accepts only scheduled prefixes or reports EAGAIN "
+    "(non-blocking descriptors only) and clients read slowly; independent strict de-framers must yield exactly one header block with every header/cookie once and a body (gunzipped) equal to the concatenation of the writes; "
+    "cached pages must be byte-identical to what was sent. Found and fixed: setbuf() below the buffered amount corrupted asynchronous output.",
+    "raw / asynchronous_raw io modes are not driven; expected bytes are recomputed from the script by the driver.",
+    "fault injection at writev() (short writes, would-block) + independent de-framers comparing against the script's ground truth, ASan/UBSan", "DESIGN.md section 4 / C03", "vsrv")
+
 chk("C04", "exploration",
     "Generated rule sets (xhtml/html, tag kinds, boolean/integer/regex/uri/relative_uri/absolute_uri properties, comments and numeric entities on/off, six encodings) x grammar-generated and mutated inputs x "
     "{remove, escape} x replacement char: validate(filter(x)) holds, filter is idempotent, valid input is returned unchanged, accepted input is well-formed in the declared encoding, and an independent "
